@@ -81,11 +81,16 @@ def run_case(case: dict[str, Any]) -> dict[str, Any]:  # noqa: C901, PLR0915
         # of a nested optimization) with other linear constraints
         from ropt.config.enopt import EnOptConfig as _Cfg
 
-        first = _Cfg.model_validate(cfg, context=transforms)
         other = {**cfg, "linear_constraints": {"coefficients": [[7.0 * (1 + j) for j in range(n)] for _ in range(l_n)],
                                                "lower_bounds": [-1.0] * l_n, "upper_bounds": [1.0] * l_n}}
-        _Cfg.model_validate(other, context=transforms)
-        cfg = first  # type: ignore[assignment]
+        if case["reuse_transform"] == "before":
+            # ... before this configuration is validated (the transforms object then describes this configuration again)
+            _Cfg.model_validate(other, context=transforms)
+            cfg = _Cfg.model_validate(cfg, context=transforms)  # type: ignore[assignment]
+        else:
+            first = _Cfg.model_validate(cfg, context=transforms)
+            _Cfg.model_validate(other, context=transforms)
+            cfg = first  # type: ignore[assignment]
     code = plan.run_step(step, config=cfg, transforms=transforms)
     check(code == OptimizerExitCode.EVALUATION_STEP_FINISHED, "exit-code", f"evaluator step returned {code}", case)
     check(len(seen) == 1 and len(seen[0]["results"]) == 1, "harness", "expected one result", case)
@@ -159,7 +164,7 @@ def check_result(case: dict[str, Any], res: Any, ev: AffineEvaluator, where: str
         check(got_lo is not None and got_hi is not None and got_vi is not None, f"{name}-info-missing",
               f"{where}: {name}: a finite bound exists but no differences/violations are reported", case)
         mag = np.abs(v) + np.where(np.isfinite(lo), np.abs(lo), 0.0) + np.where(np.isfinite(hi), np.abs(hi), 0.0)
-        reuse = "-after-transform-reuse" if case.get("reuse_transform") and name == "linear" and case.get("vscale") is not None else ""
+        reuse = "-after-transform-reuse" if case.get("reuse_transform") is True and name == "linear" and case.get("vscale") is not None else ""
         if reuse:
             ok = same(got_lo, e_lo, mag) and same(got_hi, e_hi, mag) and same(got_vi, e_vi, mag)
             check(ok, "linear-diff-after-transform-reuse",
@@ -241,7 +246,7 @@ def hypothesis_shard(item: dict[str, Any]) -> Collector:
             if not any(mask):
                 mask[draw(st.integers(0, n - 1))] = True
         return {
-            "reuse_transform": tkind in ("var", "all", "var-scales-only") and l_n > 0 and draw(st.integers(0, 3)) == 0,
+            "reuse_transform": tkind in ("var", "all", "var-scales-only") and l_n > 0 and draw(st.sampled_from([False, False, False, True, "before"])),
             "mask": mask, "near": near,
             "n": n, "R": r_n, "L": l_n, "C": c_n, "x": x, "lb": lb, "ub": ub,
             "A": a_mat, "llb": llb, "lub": lub, "nlb": nlb, "nub": nub,
@@ -258,7 +263,7 @@ def hypothesis_shard(item: dict[str, Any]) -> Collector:
         col.case(case, nontrivial=info["nontrivial"], classes=(
             "violated" if info["violated"] else "feasible", f"L={case['L']}", f"C={case['C']}",
             "transforms" if case["vscale"] or case["voff"] or case["cscale"] else "plain",
-            "bounds-inf-both-sides" if mixed_var else "bounds-other", "transforms-object-reused" if case.get("reuse_transform") else "transforms-object-fresh", "fixed-variables" if case["mask"] and not all(case["mask"]) else "all-free",
+            "bounds-inf-both-sides" if mixed_var else "bounds-other", ("transforms-object-used-before" if case.get("reuse_transform") == "before" else "transforms-object-reused") if case.get("reuse_transform") else "transforms-object-fresh", "fixed-variables" if case["mask"] and not all(case["mask"]) else "all-free",
             ("near-bound-large-magnitude" if max(abs(v) for v in case["x"]) > 100 else "near-bound") if case["near"] else "generic-bounds"))  # noqa: PLR2004
 
     run_hypothesis(col, cases(), body, seed=item["seed"], max_examples=item["examples"])
